@@ -3,6 +3,8 @@ Require Import Pearl.Base.Prelude Pearl.Base.LE Pearl.Generated.Consts Pearl.For
                Pearl.Blob.ScanBasics Pearl.Blob.ScanProofs.
 
 Require Pearl.Generated.Facts.
+Require Pearl.Storage.Model Pearl.Storage.Spec Pearl.Storage.Inv Pearl.Storage.InvProofs Pearl.Storage.WorkerProofs
+        Pearl.Storage.Theorems Pearl.Storage.CrashProofs.
 (* THE theorem: for EVERY well-formed blob (any number of records, any key length K, any metadata and data of any size) and EVERY byte length n at which the file may be cut by a crash, the exact outcome of opening the first n bytes (Blob::from_file + index regeneration scan), in BOTH validation modes: a prefix of the records exactly at record boundaries; EBincode when the cut is inside the blob header; and EBincode when the cut is anywhere strictly inside a record -- header, metadata or data alike. EBincode = the blob is moved to the corrupted blobs (quarantine). Before commit 865f94b of the code a record whose header was complete but whose metadata/data was cut was ACCEPTED whenever its data was not read back (validation off, or empty data): finding F6. *)
 Theorem C06_scan_every_prefix :
   forall K rs n v, wf_recs K rs -> (n <= length (blob_bytes rs))%nat ->
@@ -55,6 +57,176 @@ Proof. reflexivity. Qed.
 Theorem C06_source_index_size_must_be_equal : Pearl.Generated.Facts.INDEX_BLOB_SIZE_MUST_BE_EQUAL = true.
 Proof. reflexivity. Qed.
 
+(* ================= the storage level: a blob file cut by a crash, in the L3 model =================
+   The byte-level theorems above say what opening a cut blob FILE gives. The L3 model (Storage/Model.v) takes the two
+   outcomes as the operation `OCut id keep` between two sessions: keep = Some j, the file ends behind its j-th record
+   (C06_scan_every_prefix, second case: exactly the records in front of the cut are served); keep = None, it ends inside a
+   record or inside the blob header (first and third case: EBincode, the file is moved to the corrupted directory).
+   `cut_applies` (part of cut_blob / cut_log): a crash loses only bytes that were not synced; Blob::dump syncs the blob
+   before it writes the index file, so a boundary cut never goes below the size an index file of the blob records. *)
+Section StorageLevel.
+Import Pearl.Storage.Model Pearl.Storage.Spec Pearl.Storage.Inv Pearl.Storage.InvProofs Pearl.Storage.WorkerProofs
+       Pearl.Storage.Theorems Pearl.Storage.CrashProofs.
+
+(* (a) cut at a record boundary: after  end of session (close or drop); cut; start (eager or lazy)  the log is the log of
+   the files the session left, the file of blob `id` reduced to its first j records ... *)
+Theorem C06_cut_boundary_restart :
+  forall (K : N) (cfg : config) (ops : list op) (e : op) (id : N) (j : nat) (lazy : bool),
+    s_open (reach K cfg ops) = true -> ends_session e ->
+    abs (reach K cfg (ops ++ [e; OCut id (Some j); OOpen lazy])) = cut_log K id j (files_left K e (reach K cfg ops)).
+Proof. exact cut_boundary_restart. Qed.
+
+Theorem C06_cut_blob_records :
+  forall (K id : N) (j : nat) (b : blob),
+    b_recs (cut_blob K id j b) = if (b_id b =? id) && cut_applies K j b then firstn j (b_recs b) else b_recs b.
+Proof. exact cut_blob_recs. Qed.
+
+(* ... every read answers from that log ... *)
+Theorem C06_cut_boundary_reads :
+  forall (K : N) (cfg : config) (ops : list op) (e : op) (id : N) (j : nat) (lazy : bool) (k : N),
+    s_open (reach K cfg ops) = true -> ends_session e ->
+    get_latest_entry (reach K cfg (ops ++ [e; OCut id (Some j); OOpen lazy])) k None
+    = spec_read (cut_log K id j (files_left K e (reach K cfg ops))) k.
+Proof. exact cut_boundary_reads. Qed.
+
+(* ... and a key that has no record in blob `id` reads exactly as before the crash *)
+Theorem C06_cut_boundary_other_keys :
+  forall (K : N) (cfg : config) (ops : list op) (e : op) (id : N) (j : nat) (lazy : bool) (k : N),
+    s_open (reach K cfg ops) = true -> ends_session e ->
+    (forall b, In b (blobs_in_order (reach K cfg ops)) -> b_id b = id -> of_key k (b_recs b) = []) ->
+    get_latest_entry (reach K cfg (ops ++ [e; OCut id (Some j); OOpen lazy])) k None
+    = get_latest_entry (reach K cfg ops) k None.
+Proof. exact cut_boundary_other_keys. Qed.
+
+(* (b) cut inside a record: the next start moves the file to the corrupted directory; the log is the old log without
+   the records of that blob, every other blob keeps all its records, the counter of corrupted blobs grows by one, and
+   no blob of that or of any later state has the id *)
+Theorem C06_cut_inside_quarantines :
+  forall (K : N) (cfg : config) (ops : list op) (e : op) (id : N) (lazy : bool),
+    let s := reach K cfg ops in
+    let s' := reach K cfg (ops ++ [e; OCut id None; OOpen lazy]) in
+    s_open s = true -> ends_session e -> (exists b, In b (blobs_in_order s) /\ b_id b = id) ->
+    s_quar s' = s_quar s ++ [id] /\
+    s_corrupted s' = s_corrupted s + 1 /\
+    abs s' = flat_map b_recs (without id (blobs_in_order s)) /\
+    (forall b, In b (blobs_in_order s) -> b_id b <> id ->
+       exists b', In b' (blobs_in_order s') /\ b_id b' = b_id b /\ b_recs b' = b_recs b) /\
+    id < s_next s' /\
+    (forall ops2 b', In b' (blobs_in_order (reach K cfg ((ops ++ [e; OCut id None; OOpen lazy]) ++ ops2))) -> b_id b' <> id).
+Proof. exact cut_inside_quarantines. Qed.
+
+(* whatever happened before (any damage, any number of times), `open` makes the log the records of the blob files that
+   can be read back *)
+Theorem C06_open_serves_the_readable_files :
+  forall (K : N) (cfg : config) (ops : list op) (lazy : bool),
+    abs (reach K cfg (ops ++ [OOpen lazy])) = readable_log (reach K cfg ops).
+Proof. exact reach_open_abs. Qed.
+
+(* (c) every blob file unreadable: an eager start creates a fresh active blob with an id above every id of both
+   directories; a lazy start has no blob at all, and the start after it (init_new on the empty work directory) does
+   the same *)
+Theorem C06_all_quarantined_eager :
+  forall (K : N) (cfg : config) (ops : list op),
+    let s := reach K cfg ops in
+    let s' := reach K cfg (ops ++ [OOpen false]) in
+    s_open s = false -> closed_blobs s <> [] -> (forall b, In b (closed_blobs s) -> In (b_id b) (s_bad s)) ->
+    exists n, s_active s' = Some (new_blob n) /\ s_closed s' = [] /\ s_next s' = n + 1 /\
+              s_quar s' = s_quar s ++ map b_id (closed_blobs s) /\
+              (forall q, In q (s_quar s') -> q < n) /\
+              s_corrupted s' = N.of_nat (length (s_quar s')) /\ abs s' = [].
+Proof. exact all_quarantined_eager. Qed.
+
+Theorem C06_all_quarantined_lazy :
+  forall (K : N) (cfg : config) (ops : list op),
+    let s := reach K cfg ops in
+    let s' := reach K cfg (ops ++ [OOpen true]) in
+    s_open s = false -> closed_blobs s <> [] -> (forall b, In b (closed_blobs s) -> In (b_id b) (s_bad s)) ->
+    s_active s' = None /\ s_closed s' = [] /\ s_open s' = true /\
+    s_quar s' = s_quar s ++ map b_id (closed_blobs s) /\
+    (forall q, In q (s_quar s') -> q < s_next s') /\
+    s_corrupted s' = N.of_nat (length (s_quar s')).
+Proof. exact all_quarantined_lazy. Qed.
+
+Theorem C06_all_quarantined_lazy_restart :
+  forall (K : N) (cfg : config) (ops : list op) (e : op) (lazy2 : bool),
+    let s := reach K cfg ops in
+    let s' := reach K cfg (ops ++ [OOpen true]) in
+    let s'' := reach K cfg ((ops ++ [OOpen true]) ++ [e; OOpen lazy2]) in
+    s_open s = false -> closed_blobs s <> [] -> (forall b, In b (closed_blobs s) -> In (b_id b) (s_bad s)) ->
+    ends_session e ->
+    exists n, s_active s'' = Some (new_blob n) /\ s_closed s'' = [] /\ s_next s'' = n + 1 /\
+              s_quar s'' = s_quar s' /\ (forall q, In q (s_quar s'') -> q < n) /\
+              s_corrupted s'' = N.of_nat (length (s_quar s'')).
+Proof. exact all_quarantined_lazy_restart. Qed.
+
+(* (d) after EVERY history, crash damage at any place included: the invariant, the reads, the worker, the writes *)
+Theorem C06_invariant_after_crash_damage :
+  forall (K : N) (cfg : config) (ops1 : list op) (id : N) (keep : option nat) (ops2 : list op),
+    Inv K (reach K cfg (ops1 ++ OCut id keep :: ops2)).
+Proof. exact crash_history_Inv. Qed.
+
+Theorem C06_reads_after_crash_damage :
+  forall (K : N) (cfg : config) (ops1 : list op) (id : N) (keep : option nat) (ops2 : list op) (k : N),
+    get_latest_entry (reach K cfg (ops1 ++ OCut id keep :: ops2)) k None
+    = spec_read (abs (reach K cfg (ops1 ++ OCut id keep :: ops2))) k.
+Proof. exact crash_history_read_latest. Qed.
+
+Theorem C06_never_index_error_after_crash_damage :
+  forall (K : N) (cfg : config) (ops1 : list op) (id : N) (keep : option nat) (ops2 : list op),
+    s_f2 (reach K cfg (ops1 ++ OCut id keep :: ops2)) = false.
+Proof. exact crash_history_never_f2. Qed.
+
+Theorem C06_worker_alive_after_crash_damage :
+  forall (K : N) (cfg : config) (ops1 : list op) (id : N) (keep : option nat) (ops2 : list op),
+    s_open (reach K cfg (ops1 ++ OCut id keep :: ops2)) = true -> s_alive (reach K cfg (ops1 ++ OCut id keep :: ops2)) = true.
+Proof. exact crash_history_alive. Qed.
+
+Theorem C06_writable_after_crash_damage :
+  forall (K : N) (cfg : config) (ops1 : list op) (id : N) (keep : option nat) (ops2 : list op)
+         (k ts : N) (meta : option N) (msize dlen dseed : N),
+    s_open (reach K cfg (ops1 ++ OCut id keep :: ops2)) = true ->
+    snd (step K cfg (reach K cfg (ops1 ++ OCut id keep :: ops2)) (OWrite k ts meta msize dlen dseed)) = RUnit.
+Proof. exact crash_history_writable. Qed.
+
+(* computed, on concrete histories (Storage/CrashProofs.v: x_hist_a, x_hist_b, x_hist_c) *)
+Theorem C06_quarantine_computed :
+  let s := reach 4 x_cfg x_hist_b in
+  x_ids s = [1] /\ x_keys s = [2] /\ s_quar s = [0] /\ s_corrupted s = 1 /\ s_next s = 2 /\ s_bad s = [] /\
+  get_latest_entry s 1 None = NotFound /\ is_found (get_latest_entry s 2 None) = true /\
+  counts s = RCounts 1 [(1, 1)] (Some 1) 1 2 1 true /\
+  x_ids (reach 4 x_cfg (x_hist_b ++ [OForceUpdate 0])) = [1; 2] /\
+  s_quar (reach 4 x_cfg (x_hist_b ++ [OForceUpdate 0; OClose; OOpen true])) = [0].
+Proof. exact quarantine_computed. Qed.
+
+Theorem C06_all_quarantined_computed :
+  let se := reach 4 x_cfg (x_hist_c ++ [OOpen false]) in
+  let sl := reach 4 x_cfg (x_hist_c ++ [OOpen true]) in
+  let sr := reach 4 x_cfg (x_hist_c ++ [OOpen true; OClose; OOpen false]) in
+  s_bad (reach 4 x_cfg x_hist_c) = [0] /\
+  (s_active se = Some (new_blob 1) /\ s_closed se = [] /\ s_next se = 2 /\ s_quar se = [0] /\ s_corrupted se = 1) /\
+  (s_active sl = None /\ s_closed sl = [] /\ s_next sl = 1 /\ s_quar sl = [0] /\ s_corrupted sl = 1) /\
+  (s_active sr = Some (new_blob 1) /\ s_closed sr = [] /\ s_next sr = 2 /\ s_quar sr = [0] /\ s_corrupted sr = 1).
+Proof. exact all_quarantined_computed. Qed.
+
+Theorem C06_cut_boundary_computed :
+  x_keys (reach 4 x_cfg (x_hist_a ODrop)) = [1] /\
+  get_latest_entry (reach 4 x_cfg (x_hist_a ODrop)) 2 None = NotFound /\
+  is_found (get_latest_entry (reach 4 x_cfg (x_hist_a ODrop)) 1 None) = true /\
+  x_keys (reach 4 x_cfg (x_hist_a OClose)) = [1; 2].
+Proof. exact cut_boundary_computed. Qed.
+
+(* OUTSIDE the crash model (why cut_applies is there): a cut below the size an index file records -- the loss of synced
+   bytes -- leaves a stale index file on disk (a regenerated index does not remove it); a later coincidence of sizes
+   makes a later start trust it: an acknowledged record is not found, a lost one is *)
+Theorem C06_cut_below_index_breaks_reads :
+  let s1 := reach 4 x_cfg [OOpen false; OWrite 1 7 None 8 5 1; OWrite 2 8 None 8 5 2; OClose] in
+  let s3 := fst (run 4 x_cfg (raw_cut 0 1 s1) [OOpen false; OWrite 3 9 None 8 5 3; ODrop; OOpen false]) in
+  x_keys s3 = [1; 3] /\
+  get_latest_entry s3 3 None = NotFound /\ spec_read (abs s3) 3 <> NotFound /\
+  is_found (get_latest_entry s3 2 None) = true /\ spec_read (abs s3) 2 = NotFound.
+Proof. exact cut_below_index_breaks_reads. Qed.
+End StorageLevel.
+
 Print Assumptions C06_scan_every_prefix.
 Print Assumptions C06_scan_complete.
 Print Assumptions C06_truncation_never_fails_init.
@@ -64,3 +236,21 @@ Print Assumptions C06_torn_record_rejected.
 Print Assumptions C06_torn_empty_record_rejected.
 Print Assumptions C06_source_scan_checks_record_end.
 Print Assumptions C06_source_index_size_must_be_equal.
+Print Assumptions C06_cut_boundary_restart.
+Print Assumptions C06_cut_blob_records.
+Print Assumptions C06_cut_boundary_reads.
+Print Assumptions C06_cut_boundary_other_keys.
+Print Assumptions C06_cut_inside_quarantines.
+Print Assumptions C06_open_serves_the_readable_files.
+Print Assumptions C06_all_quarantined_eager.
+Print Assumptions C06_all_quarantined_lazy.
+Print Assumptions C06_all_quarantined_lazy_restart.
+Print Assumptions C06_invariant_after_crash_damage.
+Print Assumptions C06_reads_after_crash_damage.
+Print Assumptions C06_never_index_error_after_crash_damage.
+Print Assumptions C06_worker_alive_after_crash_damage.
+Print Assumptions C06_writable_after_crash_damage.
+Print Assumptions C06_quarantine_computed.
+Print Assumptions C06_all_quarantined_computed.
+Print Assumptions C06_cut_boundary_computed.
+Print Assumptions C06_cut_below_index_breaks_reads.
